@@ -108,6 +108,8 @@ class C18(Prop):
             "bursts": st.lists(st.tuples(st.integers(0, 40), burst).map(list), min_size=1, max_size=4),
             "with_reply": st.booleans(),   # first burst arrives in the same segment as the handshake reply
             "chunk": st.one_of(st.none(), st.sampled_from([1000, 16384, 20000, 65536, 70000])),
+            # an earlier connection in this process (same WebSocket object or another) and how it ended
+            "prelude": gen.prelude(),
         })
 
     def enumerations(self, tier):
